@@ -118,6 +118,59 @@ class Bits:
             return s['ln']
         return s['ln']
 
+    def _bits_from_def(self, d, name, path, depth):
+        res = None
+        kind, bi, x = d
+        if kind == 'call':
+            cal = x.get('callee') or ''
+            tgt = local_target(self.eng, x) or ''
+            args = x['args']
+            if tgt.endswith('random_bits'):
+                v = self.const_val(args[0])
+                if v is None:
+                    # the mask length is a run-time value (e.g. derived from the size of the secret): it cannot be credited with any
+                    # fixed number of bits, and a length that follows the secret leaks its size by itself
+                    self.nonconst_masks = getattr(self, 'nonconst_masks', set())
+                    self.nonconst_masks.add(name)
+                    v = 0
+                res = (v, (name,))
+                self.masks = getattr(self, 'masks', {})
+                self.masks[name] = v
+            elif tgt.endswith('rand_int'):
+                b = self.bits_op(args[1], depth + 1)
+                res = (b[0], (name,)) if b else None
+            elif cal.endswith('Integer::from_digits'):
+                res = (256, (name,))
+            elif cal == 'std::ops::Mul::mul':
+                a, b = self.bits_op(args[0], depth + 1), self.bits_op(args[1], depth + 1)
+                if a and b:
+                    res = (a[0] + b[0], tuple(sorted(set(a[1]) | set(b[1]))))
+            elif cal in ('std::ops::Add::add', 'std::ops::Sub::sub'):
+                a, b = self.bits_op(args[0], depth + 1), self.bits_op(args[1], depth + 1)
+                if a and b:
+                    res = (max(a[0], b[0]) + 1, (name,))
+            elif cal in PASS and args:
+                res = self.bits_op(args[0], depth + 1)
+            elif tgt and args:
+                summ = self.eng.summary(tgt)
+                if summ and summ.get('alias'):
+                    res = self.bits_op(args[0], depth + 1)
+                else:
+                    res = (self.suite['ln'], (name,))
+        elif kind == 'assign':
+            rv = x['rv']
+            if rv['k'] in ('use', 'cast') and rv['op']['k'] in ('copy', 'move', 'const'):
+                res = self.bits_op(rv['op'], depth + 1)
+            elif rv['k'] == 'ref':
+                res = self.bits_place(rv['pl'], depth + 1)
+            elif rv['k'] == 'agg' and rv['ak'] == 'tuple' and path and path[0].isdigit() and int(path[0]) < len(rv['ops']):
+                o = rv['ops'][int(path[0])]
+                if o['k'] in ('copy', 'move') and len(path) > 1:
+                    res = self.bits_place({'l': o['pl']['l'], 'p': o['pl'].get('p', []) + [{'k': 'field', 'n': q, 'adt': ''} for q in path[1:]]}, depth + 1)
+                else:
+                    res = self.bits_op(o, depth + 1)
+        return res
+
     def bits_op(self, op, depth=0):
         if op['k'] == 'const':
             v = self.const_val(op)
@@ -171,61 +224,17 @@ class Bits:
                 self.elem_src[name] = best
         else:
             d = zf.single_def(root)
-            if d is not None and path and d[0] == 'assign' and d[2]['rv']['k'] == 'agg' and d[2]['rv']['ak'] == 'tuple':
-                pass
             if d is not None and path and d[0] == 'call':
                 # field of a call result (a commitment returned by commit_*): randomness / value are ln-bit
                 res = (self.field_bits('', path), (name + ''.join('.' + x for x in path),))
             elif d is not None:
-                kind, bi, x = d
-                if kind == 'call':
-                    cal = x.get('callee') or ''
-                    tgt = local_target(self.eng, x) or ''
-                    args = x['args']
-                    if tgt.endswith('random_bits'):
-                        v = self.const_val(args[0])
-                        if v is None:
-                            # the mask length is a run-time value (e.g. derived from the size of the secret): it cannot be credited with any
-                            # fixed number of bits, and a length that follows the secret leaks its size by itself
-                            self.nonconst_masks = getattr(self, 'nonconst_masks', set())
-                            self.nonconst_masks.add(name)
-                            v = 0
-                        res = (v, (name,))
-                        self.masks = getattr(self, 'masks', {})
-                        self.masks[name] = v
-                    elif tgt.endswith('rand_int'):
-                        b = self.bits_op(args[1], depth + 1)
-                        res = (b[0], (name,)) if b else None
-                    elif cal.endswith('Integer::from_digits'):
-                        res = (256, (name,))
-                    elif cal == 'std::ops::Mul::mul':
-                        a, b = self.bits_op(args[0], depth + 1), self.bits_op(args[1], depth + 1)
-                        if a and b:
-                            res = (a[0] + b[0], tuple(sorted(set(a[1]) | set(b[1]))))
-                    elif cal in ('std::ops::Add::add', 'std::ops::Sub::sub'):
-                        a, b = self.bits_op(args[0], depth + 1), self.bits_op(args[1], depth + 1)
-                        if a and b:
-                            res = (max(a[0], b[0]) + 1, (name,))
-                    elif cal in PASS and args:
-                        res = self.bits_op(args[0], depth + 1)
-                    elif tgt and args:
-                        summ = self.eng.summary(tgt)
-                        if summ and summ.get('alias'):
-                            res = self.bits_op(args[0], depth + 1)
-                        else:
-                            res = (self.suite['ln'], (name,))
-                elif kind == 'assign':
-                    rv = x['rv']
-                    if rv['k'] in ('use', 'cast') and rv['op']['k'] in ('copy', 'move', 'const'):
-                        res = self.bits_op(rv['op'], depth + 1)
-                    elif rv['k'] == 'ref':
-                        res = self.bits_place(rv['pl'], depth + 1)
-                    elif rv['k'] == 'agg' and rv['ak'] == 'tuple' and path and path[0].isdigit() and int(path[0]) < len(rv['ops']):
-                        o = rv['ops'][int(path[0])]
-                        if o['k'] in ('copy', 'move') and len(path) > 1:
-                            res = self.bits_place({'l': o['pl']['l'], 'p': o['pl'].get('p', []) + [{'k': 'field', 'n': q, 'adt': ''} for q in path[1:]]}, depth + 1)
-                        else:
-                            res = self.bits_op(o, depth + 1)
+                res = self._bits_from_def(d, name, path, depth)
+            elif not path and not fd.is_param(root):
+                # assigned on several paths (`if hidden { random } else { value }`): the longest alternative
+                alts = [self._bits_from_def(dd, name, path, depth) for dd in fd.defs.get(root, []) if not dd[2].get('dst', {}).get('p')]
+                if alts and all(a is not None for a in alts):
+                    best = max(alts, key=lambda a: a[0])
+                    res = (best[0], (name,))
         self.memo[key] = res
         return res
 
